@@ -45,6 +45,10 @@ pub struct ReplicaSpec {
     /// binary paths: go through a real file and `from_binary`
     pub via_file: bool,
     pub inner: Option<Box<ReplicaSpec>>,
+    /// Builder path only: some deliveries name the record differently (empty / other symbol). Which name wins is not
+    /// stated by any property, so this is only switched on for lenses that do not own record names (C02, C10).
+    #[serde(default)]
+    pub alt_names: bool,
 }
 
 impl ReplicaSpec {
@@ -78,6 +82,7 @@ impl ReplicaSpec {
             hash: (hash_mode, r.next_u64()),
             via_file: r.chance(1, 4),
             inner,
+            alt_names: false,
         }
     }
 
@@ -97,6 +102,7 @@ impl ReplicaSpec {
             hash: (1, 0),
             via_file: false,
             inner: if path == PathKind::BinLib { Some(Box::new(ReplicaSpec::canonical(PathKind::Builder))) } else { None },
+            alt_names: false,
         }
     }
 
@@ -275,7 +281,22 @@ pub fn build(ctx: &mut Ctx, f: &FactSet, spec: &ReplicaSpec) -> Built {
             let mut dupc = 0u64;
             let terms = ordered_terms(f, spec.term_order, spec.dup, &mut dupc);
             let links = ordered_links(f, spec.link_order, spec.dup, &mut dupc);
-            let anns = ordered_anns(f, spec.ann_order, spec.dup, spec.bare_permille, &mut dupc);
+            let mut anns = ordered_anns(f, spec.ann_order, spec.dup, spec.bare_permille, &mut dupc);
+            if spec.alt_names {
+                let mut altered = 0u64;
+                for (i, a) in anns.iter_mut().enumerate() {
+                    let h = crate::prng::mix2(spec.ann_order.seed ^ 0xA17, i as u64);
+                    if h % 4 == 0 {
+                        a.name = match (h >> 8) % 3 {
+                            0 => String::new(),
+                            1 => format!("{}2", a.name),
+                            _ => "ALT".to_string(),
+                        };
+                        altered += 1;
+                    }
+                }
+                ctx.counters.add("fault.delivery_with_another_record_name", altered);
+            }
             ctx.counters.add("fault.duplicate_delivery", dupc);
             ctx.step((terms.len() + links.len() + anns.len() + 4) as u64);
             let tsig = order_signature(&terms.iter().map(|t| t.id).collect::<Vec<_>>(), &depth);
